@@ -12,6 +12,7 @@ import hashlib
 import itertools
 import json
 import math
+import os
 from fractions import Fraction
 
 import numpy as np
@@ -39,6 +40,8 @@ ASSUMES = [
 ]
 TRUSTED = ["Gen/ValConst.v produced by translator/gen_valconst.py from the imported pandora.constants"]
 
+# VERIF_AS_FOUND=1 compares with the model of the code before the `fix:` commits (fid 3)
+MODEL_FID = 3 if os.environ.get("VERIF_AS_FOUND") == "1" else 1
 THRESHOLDS = [Fraction(0), Fraction(1, 2), Fraction(1), Fraction(3, 2), Fraction(2)]
 INFO_BITS = [4, 8, 16, 32, 1024, 2048]       # bits that do not make a pixel invalid
 INVALID_BITS = [1, 2, 64, 128, 256, 512]     # PANDORA_MSK_PIXEL_INVALID = 0b01111000011
@@ -353,7 +356,7 @@ def run(ctx):
         eL = enc_ds(cs["L"], cs["maskL"], (dmin, dmax), cs["offset"])
         eR = enc_ds(cs["R"], cs["maskR"], (-dmax, -dmin), cs["offset"])
         t = cs["thr"]
-        margs += [(1, [eL, eR, t]), (2, [eL, eR, t]), (1, [eR, eL, t]), (2, [eR, eL, t])]
+        margs += [(MODEL_FID, [eL, eR, t]), (2, [eL, eR, t]), (MODEL_FID, [eR, eL, t]), (2, [eR, eL, t])]
     mres = model.batch(margs)
 
     # ---- the real code, as validation_run calls it
